@@ -124,6 +124,11 @@ func (c09) Gen(tier string, seed int64) []fw.Unit {
 			u.I = append([]int64{mode, fill, r.Int63(), 1}, u.I...)
 			us = append(us, u)
 		}
+		if i < 24 || tier == "thorough" {
+			u := s.Unit("scale", "exact-chain")
+			u.I = append([]int64{4, int64(r.Intn(len(c09Fills))), r.Int63(), 2}, u.I...)
+			us = append(us, u)
+		}
 		// chains
 		for depth := int64(2); depth <= 3; depth++ {
 			u := s.Unit("scale", fmt.Sprintf("chain%d", depth))
@@ -385,6 +390,28 @@ func (p c09) Exec(c *fw.Ctx, u *fw.Unit) {
 				check(src, f*w0+f-1, f*h0+1, fillIdx, "")
 				if f%7 == 0 {
 					check(src, f*w0+3, (f+1)*h0, fillIdx, "")
+				}
+			}
+		}
+	case 4: // chains through an exact, padding-free intermediate
+		for k := 2; k <= 4; k++ {
+			hh := k * h0
+			if dims == 1 {
+				hh = 2
+			}
+			mid := check(src, k*w0, hh, fillIdx, "")
+			if mid == nil {
+				continue
+			}
+			ch := fmt.Sprintf("[%dx%d exact]", k*w0, hh)
+			for _, w2 := range []int{k*w0 - 1, k * w0, k*w0 + 1, k*w0*3/2, (k + 1) * w0, 2*k*w0 - 1, 2 * k * w0, 2*k*w0 + k, w0} {
+				h2 := hh * w2 / (k * w0)
+				if dims == 1 || h2 < 1 {
+					h2 = 1 + r.Intn(3)
+				}
+				if w2 >= 1 && w2*h2 <= 600000 {
+					check(mid, w2, h2, r.Intn(len(c09Fills)), ch)
+					check(mid, w2, hh, fillIdx, ch)
 				}
 			}
 		}
